@@ -216,6 +216,102 @@ Proof.
   apply settled_preserved_list; [exact H|]. now apply settled_after_completed_start.
 Qed.
 
+(* ---- after a successful `fan init` (and after a completed start) nothing is left to analyse ---- *)
+(* a map is configured or stored, and the RPM curve is stored or cannot be measured at all *)
+Definition calm (fl : fleet) (d : db) (id : Z) : Prop :=
+  exists f c, fl id = Some (f, c) /\ (f_map f <> None \/ e_map (d id) <> None)
+              /\ (e_data (d id) = true \/ cap_rpm c = false).
+
+Lemma settled_calm fl d id : settled fl d id -> calm fl d id.
+Proof. intros [f [c [F [Hd Hm]]]]. exists f, c. auto. Qed.
+
+Lemma start_calm_noop f c e :
+  (f_map f <> None \/ e_map e <> None) -> (e_data e = true \/ cap_rpm c = false) ->
+  analysis_free (start_actions f c e)
+  /\ (f_map f <> None \/ e_map (snd (startup f c e)) <> None)
+  /\ (e_data (snd (startup f c e)) = true \/ cap_rpm c = false).
+Proof.
+  intros Hm Hd. destruct (e_data e) eqn:Ed.
+  - destruct (start_settled_noop f c e Ed Hm) as [A [S1 S2]]. rewrite S1, S2. auto.
+  - destruct Hd as [Hd|Hr]; [discriminate|].
+    unfold start_actions, startup, start, init_seq. rewrite Ed, Hr. cbn [negb].
+    destruct (f_map f) as [m|] eqn:Fm.
+    + rewrite !(compute_map_cfg f c _ _ m Fm).
+      destruct (needs_init f); cbn [negb fst snd e_data e_map].
+      * repeat split; try (intros H; inl H); auto; try (left; discriminate).
+      * rewrite !(compute_map_cfg f c _ _ m Fm). cbn [fst snd e_data e_map].
+        repeat split; try (intros H; inl H); auto; try (left; discriminate).
+    + destruct Hm as [Hm|Hm]; [congruence|]. destruct (e_map e) as [sm|] eqn:Em; [|congruence].
+      rewrite !(compute_map_stored f c _ sm Fm).
+      destruct (needs_init f); cbn [negb fst snd e_data e_map].
+      * repeat split; try (intros H; inl H); auto; try (right; discriminate).
+      * rewrite !(compute_map_stored f c _ sm Fm). cbn [fst snd e_data e_map].
+        repeat split; try (intros H; inl H); auto; try (right; discriminate).
+Qed.
+
+Lemma calm_after_ok_init fl d id :
+  fl id <> None -> ~ In Err (acts fl d (Init id)) -> calm fl (step fl d (Init id)) id.
+Proof.
+  unfold acts, step, calm. destruct (fl id) as [[f c]|] eqn:F; [|congruence]. intros _ NE.
+  exists f, c. split; [reflexivity|]. unfold upd. rewrite Z.eqb_refl.
+  unfold init_cmd, init_seq in *.
+  assert (L : forall st, snd (fst (compute_map f c None st)) <> None).
+  { intros st. unfold compute_map. destruct (f_map f); [cbn; discriminate|].
+    destruct st; [cbn; discriminate|]. destruct (cap_pwm c); cbn; discriminate. }
+  specialize (L (e_map empty_entry)).
+  destruct (compute_map f c None (e_map empty_entry)) as [[a1 mem1] st1]. cbn [fst snd] in L.
+  destruct (cap_rpm c) eqn:R; cbn [negb] in *.
+  - destruct (measured c (odflt_map mem1)).
+    + destruct (f_kind f); cbn [fst snd e_data e_map] in *; auto.
+      exfalso. apply NE. apply in_or_app. right. now left.
+    + cbn [fst snd e_data e_map]. auto.
+  - cbn [fst snd e_data e_map]. auto.
+Qed.
+
+Lemma calm_preserved fl d id c :
+  c <> Reset id -> c <> Init id -> calm fl d id -> calm fl (step fl d c) id.
+Proof.
+  intros NR NI [f [cp [F [Hm Hd]]]]. unfold calm.
+  destruct c as [j|j|j|j]; cbn [step].
+  - destruct (Z.eqb_spec j id) as [->|Ne].
+    + rewrite F. exists f, cp. unfold upd. rewrite Z.eqb_refl.
+      destruct (start_calm_noop f cp (d id) Hm Hd) as [_ [S1 S2]]. auto.
+    + destruct (fl j) as [[f' c']|]; [|exists f, cp; auto].
+      exists f, cp. unfold upd. destruct (Z.eqb_spec id j); [congruence|]. auto.
+  - exists f, cp. auto.
+  - assert (j <> id) by congruence. exists f, cp. unfold upd. destruct (Z.eqb_spec id j); [congruence|]. auto.
+  - assert (j <> id) by congruence. destruct (fl j) as [[f' c']|]; [|exists f, cp; auto].
+    exists f, cp. unfold upd. destruct (Z.eqb_spec id j); [congruence|]. auto.
+Qed.
+
+Lemma calm_preserved_list fl id cs : forall d,
+  (forall c, In c cs -> c <> Reset id /\ c <> Init id) ->
+  calm fl d id -> calm fl (exec fl d cs) id.
+Proof.
+  induction cs as [|c r IH]; intros d H S; [exact S|].
+  cbn. apply IH; [intros c' Hc'; apply H; now right|].
+  destruct (H c (or_introl eq_refl)). now apply calm_preserved.
+Qed.
+
+Lemma calm_no_analysis fl d id : calm fl d id -> analysis_free (acts fl d (Start id)).
+Proof.
+  intros [f [cp [F [Hm Hd]]]]. unfold acts. rewrite F.
+  now destruct (start_calm_noop f cp (d id) Hm Hd).
+Qed.
+
+(* a start that follows a successful `fan init` of the same fan performs no analysis:
+   what `fan init` measured was stored and is reused *)
+Lemma init_then_start_no_reanalysis : forall fl d0 pre mid id,
+  ~ In Err (acts fl (exec fl d0 pre) (Init id)) ->
+  (forall c, In c mid -> c <> Reset id /\ c <> Init id) ->
+  analysis_free (acts fl (exec fl (exec fl d0 pre) (Init id :: mid)) (Start id)).
+Proof.
+  intros fl d0 pre mid id NE H. destruct (fl id) as [x|] eqn:F.
+  - apply calm_no_analysis. cbn [exec fold_left]. apply calm_preserved_list; [exact H|].
+    apply calm_after_ok_init; [congruence|exact NE].
+  - unfold acts. rewrite F. split; intros [].
+Qed.
+
 (* `fan reset` and `fan init` really discard: the next start of a fan without configured
    map that can read its PWM sweeps again (so the history theorem is not vacuous) *)
 Lemma reset_discards fl d id : step fl d (Reset id) id = empty_entry.
